@@ -306,3 +306,6 @@ _extend("C15", "element-size agreement of block operations; rows/columns argumen
                "matrix they belong to and that shape checks receive rows and columns in that order.")
 _extend("C05", "unconditional z0 transfer in the destination set-up; element-size agreement", "Also decides that the copy of the reference impedances to the "
                "destination depends on the per-frequency flag only.")
+_extend("C02", "all-systems / per-system index agreement", "Also decides that the per-system column index never subscripts the all-systems unknown vector "
+               "without the system offset (Jacobian and residual rows of UE14/E12).")
+_extend("C18", "all-systems / per-system index agreement", "Also decides the same for the residual accumulation of the p-value.")
